@@ -60,37 +60,16 @@ impl BerEncoder for SnmpInt {
                 buf.push_tag_len(TAG_INT, buf.len() - start)
             }
             Ordering::Less => {
-                let start = buf.len();
-                let mut left = -self.0;
-                // Calculate used octets
-                let mut ln = 0;
-                while left > 0 {
-                    ln += 1;
-                    left >>= 8;
+                // Two's complement in the minimal number of octets (X.690 pp 8.3.2):
+                // drop leading 0xff octets while the next octet keeps the sign bit
+                let octets = self.0.to_be_bytes();
+                let mut first = 0;
+                while first < 7 && octets[first] == 0xff && octets[first + 1] & 0x80 != 0 {
+                    first += 1;
                 }
-                // Calculate complement
-                let d = 1 << (ln * 8 - 1);
-                left = -self.0;
-                let comp = if d < left { d << 8 } else { d };
-                // Write octets
-                if comp == left {
-                    for _ in 0..ln - 1 {
-                        buf.push_u8(0)?;
-                    }
-                    buf.push_u8(0x80)?;
-                } else {
-                    left = comp - left;
-                    loop {
-                        if left < 0xff {
-                            buf.push_u8(0x80 | (left as u8))?;
-                            break;
-                        }
-                        buf.push_u8((left & 0xff) as u8)?;
-                        left >>= 8;
-                    }
-                }
+                buf.push(&octets[first..])?;
                 // Write tag and length
-                buf.push_tag_len(TAG_INT, buf.len() - start)
+                buf.push_tag_len(TAG_INT, octets.len() - first)
             }
         }
     }
